@@ -2,7 +2,7 @@
 (***************************************************************************)
 (* Program space for C13 (default origin policy): (Host, Origin) pairs     *)
 (* over the adversarial alphabet                                           *)
-(*     a A k K U+212A(KELVIN SIGN) s S U+017F(LONG S) . - 1 :              *)
+(*     a A k K U+212A(KELVIN SIGN) s S U+017F(LONG S) z Z . - 1 :          *)
 (* An abstract program is [host, origin]; python embeds it into an         *)
 (* otherwise valid opening handshake for an Upgrader without CheckOrigin.  *)
 (*                                                                         *)
@@ -29,7 +29,7 @@ CONSTANTS MaxLen, PairLen, ShapeLen, AllPairs
 VARIABLES prog, pc, res
 mvars == << prog, pc, res >>
 
-Alpha == {97, 65, 107, 75, Kelvin, 115, 83, LongS, 46, 45, 49, 58}
+Alpha == {97, 65, 107, 75, Kelvin, 115, 83, LongS, 122, 90, 46, 45, 49, 58}   \* ... plus z Z (the end of the A-Z range)
 
 RECURSIVE StrN(_)
 StrN(n) == IF n = 0 THEN {<< >>} ELSE {<< c >> \o s : c \in Alpha, s \in StrN(n - 1)}
@@ -41,6 +41,7 @@ Hosts(n) == {h \in Strs(n) : ValidHost(h)}
 UClass(c) == CASE c \in {107, 75, Kelvin} -> {107, 75, Kelvin}
                [] c \in {115, 83, LongS}  -> {115, 83, LongS}
                [] c \in {97, 65}          -> {97, 65}
+               [] c \in {122, 90}         -> {122, 90}
                [] OTHER -> {c}
 RECURSIVE UVariants(_)
 UVariants(h) == IF h = << >> THEN {<< >>} ELSE {<< c >> \o t : c \in UClass(Head(h)), t \in UVariants(Tail(h))}
